@@ -328,6 +328,50 @@ def pipeline_case(args):
     return variant, strategy, nruns, novel_total, [(k, ("reads per iteration %s: " % list(history)) + m) for k, m in errs]
 
 
+def joint_case(args):
+    """several experiments in ONE invocation (YAML), each with another read set of the same loci: every output file of every experiment
+       obeys the id rules (what an experiment found must not show up in the files of the next one)"""
+    variant, strategy, sets, scratch = args
+    from vlib import syn, run
+    import yaml
+    d = os.path.join(scratch, "j_%s_%s_%s" % (variant, strategy, "".join(sets)))
+    shutil.rmtree(d, ignore_errors=True)
+    w = pipeline_world(variant)
+    paths = syn.materialise(w, d)
+    seqs = syn.genome_sequences(w)
+    items = [{"data format": "bam"}]
+    for i, sname in enumerate(sets):
+        sub = [r for r in w["reads"] if READ_SETS[sname] is None or r["name"].split("_")[0] in READ_SETS[sname]]
+        syn.write_bam(w, os.path.join(d, "e%d.bam" % i), reads=sub, seqs=seqs)
+        items.append({"name": "E%d" % i, "long read files": ["e%d.bam" % i]})
+    with open(os.path.join(d, "in.yaml"), "w") as f:
+        yaml.safe_dump(items, f)
+    out = os.path.join(d, "out")
+    rc = run.run_isoquant(["--output", out, "--reference", paths["ref"], "--yaml", os.path.join(d, "in.yaml"), "--data_type", "nanopore",
+                           "--threads", "1", "--genedb", paths["gtf"], "--complete_genedb", "--model_construction_strategy", strategy,
+                           "--report_novel_unspliced", "true"], paths["home"], os.path.join(d, "o.txt"))
+    errs = []
+    novel = 0
+    if rc != 0:
+        errs.append(("run-failed", "exit %d: %s" % (rc, open(os.path.join(d, "o.txt")).read()[-300:])))
+    else:
+        ref = run.parse_gtf(paths["gtf"])
+        ref_exon_ids = {}
+        for r in ref:
+            if r["type"] == "exon" and "exon_id" in r["attrs"]:
+                ref_exon_ids[(r["chr"], r["start"], r["end"], r["strand"])] = r["attrs"]["exon_id"]
+        for i in range(len(sets)):
+            table = (dict(ref_exon_ids), {})
+            for k_, v_ in ref_exon_ids.items():
+                table[1].setdefault(v_, k_)
+            for fn in ("transcript_models", "extended_annotation"):
+                e_, g_, t_ = gtf_id_errors(os.path.join(out, "E%d" % i, "E%d.%s.gtf" % (i, fn)), exon_table=table, label="experiment %d %s" % (i, fn))
+                errs += e_
+                novel += len(t_)
+    shutil.rmtree(d, ignore_errors=True)
+    return variant, strategy, 1, novel, [(k, ("joint run of read sets %s: " % list(sets)) + m) for k, m in errs]
+
+
 def run(ctx):
     quick = ctx.tier == "quick"
     depth = 3 if quick else 4
@@ -352,6 +396,13 @@ def run(ctx):
             jobs.append(("extra", s, hist, ctx.scratch))
     nruns = 0
     novel = 0
+    jj = [("extra", s_, h_, ctx.scratch) for h_ in (itertools.permutations(sets, 2) if quick else itertools.permutations(sets, 3))
+          for s_ in (["all"] if quick else ["all", "default_ont"])] + [("extra", "all", ("R3", "R4"), ctx.scratch)]
+    for variant, strategy, n, nov, errs in core.pmap(joint_case, jj):
+        nruns += n
+        novel += nov
+        for key, msg in errs:
+            ctx.violation("l2:%s" % key, "world %s strategy %s: %s" % (variant, strategy, msg), {"variant": variant, "strategy": strategy, "msg": msg[:120]})
     for variant, strategy, n, nov, errs in core.pmap(pipeline_case, jobs):
         nruns += n
         novel += nov
